@@ -40,7 +40,7 @@ def is_clean_utf8(b):
         s = b.decode("utf-8")
     except UnicodeDecodeError:
         return False
-    return all(ord(c) >= 0x20 and ord(c) != 0x7f for c in s)
+    return all(ord(c) >= 0x20 and not 0x7f <= ord(c) <= 0x9f for c in s)
 
 
 def make_files(tier, seed, mdl):
@@ -77,7 +77,9 @@ def make_files(tier, seed, mdl):
 
     files = []
     nfiles = 1500 if tier == "quick" else 20000
-    fixed = [b"", b"\n", b"\n\n", b"a@b.com\n\nx@y.com\n", b"a@b.com\n \n", b" \n", b"\t", b"#only comment", b"#c\n#d\n", b"a@b.com", b"a@b.com\r\n",
+    edge = "".join(chr(c) for c in (0xa0, 0xff, 0x100, 0x7ff, 0x800, 0x801, 0xfff, 0x1000, 0xd7ff, 0xe000, 0xfffd, 0x10000, 0x10001, 0x10ffff))
+    fixed = [(edge + "@a.com\n").encode(), ("x" + edge[::-1] + "y@b.org").encode(), ("q@" + edge[:6] + ".com\r\n").encode(),
+             "".join(c + "a" for c in edge).encode() + b"\n" + edge.encode() * 40 + b"\n", b"", b"\n", b"\n\n", b"a@b.com\n\nx@y.com\n", b"a@b.com\n \n", b" \n", b"\t", b"#only comment", b"#c\n#d\n", b"a@b.com", b"a@b.com\r\n",
              b"\r\n", b"a@b.com\r", b"\r", b" a@b.com \n", b"a" * 3000 + b"\n", b"\x01" * 700 + b"@b.com\n", b"a\xff@b.com\n",
              b"\n" * 50, ("é" * 3000).encode() + b"@a.com\n", b"x@y.zz\n" * 200]
     for f in fixed:
